@@ -194,3 +194,24 @@ pub(super) fn verif_handle_event(roots: Vec<PathBuf>, events: super::EventSender
     };
     notify::EventHandler::handle_event(&mut handler, Ok(event));
 }
+
+/// A real event handler that lives across events: its id builder is reused from one
+/// notification to the next, like the one owned by the watcher thread.
+#[cfg(assets_manager_verif)]
+pub(super) struct VerifHandler(NotifyEventHandler);
+
+#[cfg(assets_manager_verif)]
+impl VerifHandler {
+    pub(super) fn new(roots: Vec<PathBuf>, events: super::EventSender) -> Self {
+        VerifHandler(NotifyEventHandler {
+            roots,
+            events,
+            id_builder: IdBuilder::default(),
+            watcher: None,
+        })
+    }
+
+    pub(super) fn handle(&mut self, event: notify::Event) {
+        notify::EventHandler::handle_event(&mut self.0, Ok(event));
+    }
+}
